@@ -30,6 +30,15 @@ Theorem C07_lib_roundtrip : forall paths,
 Proof. exact (lib_roundtrip tie_sep). Qed.
 Print Assumptions C07_lib_roundtrip.
 
+(* the side condition is needed: without it the statement is false of the model (and of the library).
+   A directory whose path contains the separator -- only the project root can contribute one; task,
+   package and version names cannot -- is reported as two.  The property does not quantify over
+   root paths; the check records this as an assumption. *)
+Theorem C07_lib_roundtrip_colon_refuted :
+  exists p, p <> [] /\ lib_get_deps_paths (cond_deps [p]) <> [p].
+Proof. exists [47; 114; 58; 120; 47; 97].   (* /r:x/a *) split; [discriminate|]. vm_compute. discriminate. Qed.
+Print Assumptions C07_lib_roundtrip_colon_refuted.
+
 Theorem C07_lib_empty : lib_get_deps_paths (cond_deps []) = [].
 Proof. exact lib_empty. Qed.
 Print Assumptions C07_lib_empty.
